@@ -284,4 +284,14 @@ def RoundTrips [DecidableEq α] (P : Params α) (m r : Mesh α) : Bool :=
        r.nrm.isSome && r.nrm == expectedNormals P ps m.nrm (chunks m.indices)
      else r.nrm == none)
 
+/-- the STRICT reading of the normal clause of C07: the read-back mesh carries, for EVERY triangle, a
+    facet normal — the stored one where it is non-zero, the geometric one otherwise (in particular for a
+    mesh that stores no normals at all).  The code does not satisfy this (see
+    `C07.stl_geometric_normal_counterexample`): `ReadMesh` drops the attribute when every stored normal is
+    zero, and formats/stl/read_test.go pins that behaviour. -/
+def FullNormals [DecidableEq α] (P : Params α) (m r : Mesh α) : Bool :=
+  match m.pos with
+  | none => false
+  | some ps => r.nrm.isSome && r.nrm == expectedNormals P ps m.nrm (chunks m.indices)
+
 end PolyVerif.Stl
